@@ -32,8 +32,10 @@ VERIF = os.path.dirname(os.path.dirname(os.path.abspath(__file__)))
 REPO = os.environ.get("ODML_REPO", "/repo")
 LEAN = os.path.join(VERIF, "lean")
 BIN = os.path.join(LEAN, ".lake", "build", "bin")
-EVIDENCE = os.path.join(VERIF, "evidence")
-REPLAYS = os.path.join(VERIF, "out", "replays")
+# VERIF_EVIDENCE_DIR / VERIF_REPLAY_DIR redirect the outputs of a run that is not meant to be kept
+# (runs against seeded mutants in a scratch worktree, see tools/seed_eval.py)
+EVIDENCE = os.environ.get("VERIF_EVIDENCE_DIR") or os.path.join(VERIF, "evidence")
+REPLAYS = os.environ.get("VERIF_REPLAY_DIR") or os.path.join(VERIF, "out", "replays")
 ALLOWED_AXIOMS = {"propext", "Classical.choice", "Quot.sound"}
 FORBIDDEN = re.compile(r"sorry|\badmit\b|^axiom |native_decide|bv_decide|implemented_by|"
                        r"unsafe |maxHeartbeats 0", re.M)
